@@ -3,7 +3,7 @@ import re
 
 from ..facts import Broken, strip, const, walk, walk_eval, macro_name, show
 from ..interp import path
-from .. import cfgq, cbflow
+from .. import cfgq, cbflow, memrules
 from ..parserai import indirect_target
 from ..codesummary import CodeSummary
 from . import c20
@@ -279,3 +279,11 @@ def run(prog, chk):
             else:
                 r3.violation(fn.file, fname, node.get("l"), "callback-args:" + key,
                              "unexpected callback arguments: code %s, line %s" % (show(a0)[:40], show(a1)[:30]))
+
+    r4 = chk.rule("R4-termination-and-read-bounds", "no loop of the parser units is idempotent (call-free, without loop-carried state: "
+                  "such a loop cannot make progress once entered); no pointer into the read buffer is dereferenced under `<=` "
+                  "against an exclusive end", primary=False, floor=60)
+    n_loops = memrules.stuck_loops(prog, r4, only_units=("parser.c", "ciffile.c", "utils.c"))
+    n_end = memrules.exclusive_end_guards(prog, r4)
+    if n_loops < 60 or n_end < 2:
+        raise Broken("only %d loops / %d exclusive-end guards found in the parser units" % (n_loops, n_end))
